@@ -261,7 +261,18 @@ def gen_value(rng, fam):
         return 1.5
     if fam == "mixed":
         return gen_value(rng, rng.choice(["small", "large", "tiny"]))
+    if fam.startswith("offset:"):
+        # large offset, small spread: |mean| >> standard deviation (float32-exact: offset + spread * k / 4)
+        _, off, sp = fam.split(":")
+        return float(off) + float(sp) * rng.randint(-4, 4) / 4.0
     raise ValueError(fam)
+
+
+def gen_family(rng):
+    fam = rng.weighted([("small", 4), ("large", 2), ("tiny", 1), ("const", 1), ("mixed", 2), ("offset", 3)])
+    if fam == "offset":
+        fam = "offset:%s:%s" % (rng.choice(["1000", "-3000", "3000", "10000", "100000"]), rng.choice(["0.125", "0.5", "1"]))
+    return fam
 
 
 def gen_env_script(rng, fam, style):
@@ -306,7 +317,7 @@ def gen_venv(rng, n, fam):
 def gen_vn(rng, widen):
     kind = rng.weighted([("box1", 4), ("box2", 2), ("img", 1), ("dict_box", 3), ("dict_mixed", 2)])
     n = rng.weighted([(1, 2), (2, 3), (3, 3), (4, 2)])
-    fam = rng.weighted([("small", 4), ("large", 2), ("tiny", 1), ("const", 1), ("mixed", 2)])
+    fam = gen_family(rng)
     two = rng.chance(0.45)
     norm_keys = None
     if kind == "dict_box":
@@ -388,7 +399,7 @@ def gen_rms(rng, widen):
     shape = rng.choice([[], [3], [2, 2], [1]])
     d = int(np.prod(shape)) if shape else 1
     N = rng.randint(1, 40 if not widen else 80)
-    fam = rng.weighted([("small", 4), ("large", 2), ("tiny", 1), ("const", 1), ("mixed", 2)])
+    fam = gen_family(rng)
     vals = [[gen_value(rng, fam) * (1 + (j % 3)) + j for j in range(d)] for _ in range(N)]
 
     def split():
@@ -408,6 +419,7 @@ def gen_rms(rng, widen):
 
     cut = rng.randint(0, N)
     return {"kind": "rms", "shape": shape, "values": vals, "split_a": split(), "split_b": split(), "combine_at": cut,
+            "dtype": "float32" if rng.chance(0.75 if fam.startswith("offset") else 0.4) else "float64", "fam": fam,
             "eps0": rng.choice([1e-4, 1e-4, 1.0, 0.5, 1e-8]),
             "um": [gen_value(rng, fam), rng.choice([0.0, 0.25, 1.0, 9.0, 1024.0]), rng.choice([1.0, 2.5, 0.5, 7.0, 1e-4, 100.0])]}
 
@@ -540,6 +552,42 @@ def close(x, e, scale, rel=REL64):
     return abs(float(x) - e) <= rel * (abs(e) + scale) + 1e-300
 
 
+_MEASURED = {"var32": 0.0, "var32_rel": 0.0, "var32_all": 0.0}   # largest observed |var error| / tolerance and / var (goes to the evidence notes)
+
+
+def var_tol32(v, mg):
+    """Error bound of the running variance for float32 batches of magnitude <= mg, *tight relative to var*:
+    the two-pass np.var of a float32 batch is accurate to a few ulps of the variance itself (deviations from the
+    float32 batch mean are exact or rounded once), the float32 rounding U of each batch mean (U <= 8 ulp/2; taken as
+    REL_MEAN32 * mg) shifts every deviation (U^2) and enters the merge through 2 |delta| U w, whose weighted sum over
+    all updates is <= 2 U sqrt(var) by Cauchy-Schwarz.  A one-pass E[x^2]-E[x]^2 in float32 misses this bound by orders
+    of magnitude as soon as |mean| >> spread."""
+    v = abs(float(v))
+    U = REL_MEAN32 * mg
+    return REL_VAR32 * v + 4.0 * U * math.sqrt(v) + 4.0 * U * U
+
+
+def var_close32(x, v, mg):
+    x, v = float(x), float(v)
+    if not math.isfinite(x):
+        return False
+    t = var_tol32(v, mg)
+    r = abs(x - v) / t
+    _MEASURED["var32_all"] = max(_MEASURED["var32_all"], r)
+    if r <= 1.0:
+        _MEASURED["var32"] = max(_MEASURED["var32"], r)
+        if v > 0:
+            _MEASURED["var32_rel"] = max(_MEASURED["var32_rel"], abs(x - v) / v)
+    return r <= 1.0
+
+
+def mom_ok(im, iv, ic, m, v, c, mg, f32):
+    """(mean, var, count) of the implementation vs exact values; f32: the batches were float32 arrays"""
+    if f32:
+        return close(im, m, mg, REL_MEAN32) and var_close32(iv, v, mg) and close(ic, c, 0.0)
+    return close(im, m, mg) and close(iv, v, mg * mg) and close(ic, c, 0.0)
+
+
 def sqrt_q(q):
     return math.sqrt(float(q)) if q > 0 else float("nan")
 
@@ -627,11 +675,11 @@ class Wrap:
 
     def ztol(self, k, j):
         """(a, b): |impl - definition| <= 2e-6 (1 + |z|) + a + b |z| -- float32 cast of the result plus the float32
-        rounding of the batch statistics (mean: REL_MEAN32 * mag, var: REL_VAR32 * mag^2) pushed through the formula"""
+        rounding of the batch statistics (mean: REL_MEAN32 * mag, var: var_tol32) pushed through the formula"""
         m, v, _ = self.obs_sums()[k][j].mom()
         ve = fl(v + self.eps)
         mg = self.cmag[k][j]
-        return 2 * REL_MEAN32 * mg / math.sqrt(ve), 2 * REL_VAR32 * mg * mg / (2 * ve)
+        return 2 * REL_MEAN32 * mg / math.sqrt(ve), 2 * var_tol32(v, mg) / (2 * ve)
 
     def rtol(self):
         _, v, _ = self.ret_sums().mom()
@@ -772,7 +820,9 @@ class CaseRun:
                             mg = w.cmag[k][j]
                             if not close(mean[j], m, mg, REL_MEAN32):
                                 return (k, j, "mean", float(mean[j]), fl(m))
-                            if not close(var[j], v, mg * mg, REL_VAR32):
+                            if not (float(var[j]) >= 0.0):
+                                return (k, j, "var_negative_or_nan", float(var[j]), fl(v))
+                            if not var_close32(var[j], v, mg):
                                 return (k, j, "var", float(var[j]), fl(v))
                             if not close(cnt, c, 0.0):
                                 return (k, j, "count", cnt, fl(c))
@@ -852,7 +902,7 @@ class CaseRun:
                         return f"obs_rms[{k}] size"
                     for j, (m, v, c) in enumerate(mo[k]):
                         mg = cmag[k][j]
-                        if not (close(mean[j], unratj(m), mg, REL_MEAN32) and close(var[j], unratj(v), mg * mg, REL_VAR32) and close(cnt, unratj(c), 0.0)):
+                        if not (close(mean[j], unratj(m), mg, REL_MEAN32) and var_close32(var[j], unratj(v), mg) and close(cnt, unratj(c), 0.0)):
                             return f"obs_rms[{k}][{j}] impl {(float(mean[j]), float(var[j]), cnt)} model {(fl(unratj(m)), fl(unratj(v)), fl(unratj(c)))}"
             m, v, c = ms["ret_rms"]
             if not (close(st["ret"][0], unratj(m), rmag) and close(st["ret"][1], unratj(v), rmag * rmag) and close(st["ret"][2], unratj(c), 0.0)):
@@ -1291,7 +1341,7 @@ class CaseRun:
                     _, v, _ = sj.mom()
                     mg = w.cmag[kk][j]
                     # u = z * sd + mean : d(sd) = d(var) / (2 sd)
-                    utol[kk].append((2 * REL_MEAN32 * mg, 2 * REL_VAR32 * mg * mg / (2 * math.sqrt(fl(v + w.eps)))))
+                    utol[kk].append((2 * REL_MEAN32 * mg, 2 * var_tol32(v, mg) / (2 * math.sqrt(fl(v + w.eps)))))
         pmag = w.mag
 
         def cmp_un(mo):
@@ -1385,7 +1435,8 @@ def run_rms(ctx, case):
 
     rep = ctx.report
     shape = tuple(case["shape"])
-    vals = np.array(case["values"], dtype=np.float64).reshape((len(case["values"]),) + shape)
+    f32 = case.get("dtype", "float64") == "float32"
+    vals = np.array(case["values"], dtype=np.float32 if f32 else np.float64).reshape((len(case["values"]),) + shape)
     N = len(vals)
     d = int(np.prod(shape)) if shape else 1
     eps0 = case["eps0"]
@@ -1393,6 +1444,8 @@ def run_rms(ctx, case):
     ops, cmps = [], []
     told = {}
     mag = max(1.0, float(np.max(np.abs(vals))))
+    # per coordinate magnitude (float32 batches are judged relative to their own coordinate)
+    cm = [max(1.0, float(np.max(np.abs(flat[:, j])))) if f32 else mag for j in range(d)]
 
     def feed(split):
         r = RunningMeanStd(epsilon=eps0, shape=shape)
@@ -1415,9 +1468,12 @@ def run_rms(ctx, case):
         s.add([F(float(x)) for x in flat[:, j]])
         sums.append(s)
     for name, s in (("split_a", sa), ("split_b", sb)):
+        if not np.all(s[1] >= 0.0):
+            rep.violation("RunningMeanStd variance is negative or not finite", case, {"kind": "rms", "variant": "var_negative_or_nan", "split": name},
+                          {"var": [float(x) for x in s[1]]})
         for j in range(d):
             m, v, c = sums[j].mom()
-            if not (close(s[0][j], m, mag) and close(s[1][j], v, mag * mag) and close(s[2], c, 0.0)):
+            if not (mom_ok(s[0][j], s[1][j], s[2], m, v, c, cm[j], f32)):
                 rep.violation("RunningMeanStd after a batch split is not the exact moments of the stream", case,
                               {"kind": "rms", "variant": "moments", "split": name},
                               {"coord": j, "impl": [float(s[0][j]), float(s[1][j]), s[2]], "exact": [fl(m), fl(v), fl(c)]})
@@ -1434,7 +1490,7 @@ def run_rms(ctx, case):
                 if "error" in mo:
                     return f"model error {mo['error']}"
                 m, v, c = (unratj(q) for q in mo["mom"])
-                if not (close(s[0][j], m, mag) and close(s[1][j], v, mag * mag) and close(s[2], c, 0.0)):
+                if not (mom_ok(s[0][j], s[1][j], s[2], m, v, c, cm[j], f32)):
                     return f"coord {j}: impl {(float(s[0][j]), float(s[1][j]), s[2])} model {(fl(m), fl(v), fl(c))}"
                 return None
 
@@ -1452,7 +1508,7 @@ def run_rms(ctx, case):
             s.s1 += F(bm) * F(bc)
             s.s2 += (F(bv) + F(bm) * F(bm)) * F(bc)
             m, v, c = s.mom()
-            if not (close(su[0][j], m, umag) and close(su[1][j], v, umag * umag) and close(su[2], c, 0.0)):
+            if not (mom_ok(su[0][j], su[1][j], su[2], m, v, c, max(cm[j], abs(bm), math.sqrt(bv)), f32)):
                 rep.violation("update_from_moments is not the merge of the weighted moments", case,
                               {"kind": "rms", "variant": "update_from_moments"},
                               {"coord": j, "impl": [float(su[0][j]), float(su[1][j]), su[2]], "exact": [fl(m), fl(v), fl(c)]}) if not told.get("um") else None
@@ -1462,7 +1518,7 @@ def run_rms(ctx, case):
                 if "error" in mo:
                     return f"model error {mo['error']}"
                 mm, vv, cc = (unratj(q) for q in mo["mom"])
-                if not (close(su[0][j], mm, umag) and close(su[1][j], vv, umag * umag) and close(su[2], cc, 0.0)):
+                if not (mom_ok(su[0][j], su[1][j], su[2], mm, vv, cc, max(cm[j], abs(bm), math.sqrt(bv)), f32)):
                     return f"update_from_moments coord {j}: impl {(float(su[0][j]), float(su[1][j]), su[2])} model {(fl(mm), fl(vv), fl(cc))}"
                 return None
 
@@ -1492,7 +1548,7 @@ def run_rms(ctx, case):
         s.w += F(eps0)
         s.s2 += F(eps0)
         m, v, c = s.mom()
-        if not (close(sc[0][j], m, mag) and close(sc[1][j], v, mag * mag) and close(sc[2], c, 0.0)):
+        if not (mom_ok(sc[0][j], sc[1][j], sc[2], m, v, c, cm[j], f32)):
             rep.violation("combine() of two RunningMeanStd is not the moments of both streams together", case,
                           {"kind": "rms", "variant": "combine"},
                           {"coord": j, "impl": [float(sc[0][j]), float(sc[1][j]), sc[2]], "exact": [fl(m), fl(v), fl(c)]}) if not told.get("combine") else None
@@ -1502,7 +1558,7 @@ def run_rms(ctx, case):
             if "error" in mo:
                 return f"model error {mo['error']}"
             mm, vv, cc = (unratj(q) for q in mo["mom"])
-            if not (close(sc[0][j], mm, mag) and close(sc[1][j], vv, mag * mag) and close(sc[2], cc, 0.0)):
+            if not (mom_ok(sc[0][j], sc[1][j], sc[2], mm, vv, cc, cm[j], f32)):
                 return f"combine coord {j}: impl {(float(sc[0][j]), float(sc[1][j]), sc[2])} model {(fl(mm), fl(vv), fl(cc))}"
             return None
 
@@ -1557,6 +1613,8 @@ def check_cases(ctx, cases):
                 continue
             rep.case(case, case if case["split_a"] != case["split_b"] else None)
             rep.count("rms_shape:" + str(case["shape"]))
+            rep.count("rms_dtype:" + case.get("dtype", "float64"))
+            rep.count("rms_fam:" + str(case.get("fam", "?")).split(":")[0])
             base = len(all_ops)
             all_ops.extend(ops)
             plan.append((case, "rms", base, list(enumerate(cmps))))
@@ -1575,3 +1633,6 @@ def check_cases(ctx, cases):
         if bad is not None:
             stream = "rms" if kind == "rms" else ("vn_error" if "raise" in bad[1] else "vn_orig" if "(exact)" in bad[1] else "vn_stats" if "rms" in bad[1] or "returns" in bad[1] else "vn_outputs")
             rep.disagree(stream, case, {"op_index": bad[0], "difference": bad[1]}, {"answer": str(bad[2])[:400]})
+    if len(cases) > 3:
+        rep.note("float32 batches, running variance vs exact: largest accepted |error|/tolerance %.3g (|error|/var %.3g); largest "
+                 "|error|/tolerance seen at all %.3g" % (_MEASURED["var32"], _MEASURED["var32_rel"], _MEASURED["var32_all"]))
